@@ -1,7 +1,7 @@
 (* Strings as lists of Unicode code points (N); the Python str primitives the models need. *)
 From Coq Require Import List Bool Arith NArith Lia.
 Import ListNotations.
-Open Scope N_scope.
+Local Open Scope N_scope.
 
 Definition str := list N.
 
